@@ -2,7 +2,7 @@
    Statements only; every proof is `exact <lemma>`.  The loop tests / bodies / return expressions
    (cel0_cond, cel_iter0_step, ...) are the functions TRANSLATED from /repo's special_cel.py on this
    run (Gen/GenLoop.v); NumR is the real-number instance of the model, NumF the binary64 one.
-   What the real-number theorems do NOT cover is exactly what C15_circle_terminates_refuted shows. *)
+   What the real-number theorems do NOT cover is exactly what C15_cel_iter_terminates_refuted shows. *)
 From Coq Require Import ZArith Reals List Bool.
 From MV Require Import Model.LoopNum Gen.GenLoop Model.LoopModel Model.LoopExec Proofs.LoopProofs Proofs.LoopFloat.
 Import ListNotations.
@@ -87,14 +87,17 @@ Theorem C15_cylinder_axial_cel0_terminates : forall (z0 r z p c s : R),
 Proof. exact cylinder_axial_cel0_terminates. Qed.
 Print Assumptions C15_cylinder_axial_cel0_terminates.
 
-(* ---- the same model in binary64: the general-case mask of BHJM_circle does NOT protect the loop.
-   gap_row = Circle(diameter 2, current 1) seen from (1, 0, 1e-170): mask5 holds, q2 = q = 0,
-   and the general branch never returns, whatever the fuel. *)
-Theorem C15_circle_terminates_refuted :
-  cir_mask5 NumF gap_row = true /\
+(* ---- the same model in binary64: the loops themselves do NOT terminate on every finite input; they rely
+   on their callers' masks.  gap_row = Circle(diameter 2, current 1) seen from (1, 0, 1e-170): (z/r0)^2
+   underflows, q2 = q = 0, and with these start values neither cel_iter0 nor cel_iterv ever returns, whatever
+   the fuel.  Before fix 588c868 of /repo the wrapper sent this row to the core (mask2 tested z == 0) and
+   Circle.getH((1,0,1e-170)) never returned; the mask as it is NOW (abs(z) < 1e-15 r0) excludes the row. *)
+Theorem C15_cel_iter_terminates_refuted :
+  (PrimFloat.eqb (cm_q2 NumF gap_mid) PrimFloat.zero = true /\ PrimFloat.eqb (cm_q NumF gap_mid) PrimFloat.zero = true) /\
   (forall fuel, cel_iter0 NumF fuel (circle_start1 NumF gap_mid) = OutOfFuel) /\
-  (forall fuel, circle_general NumF fuel [gap_row] = OutOfFuel).
-Proof. exact (conj gap_general (conj circle_float_diverges0 circle_float_diverges)). Qed.
+  (forall fuel, cel_iterv NumF fuel [circle_start1 NumF gap_mid] = OutOfFuel) /\
+  (cir_mask5 NumF gap_row = false /\ cir_mask2 NumF gap_row = true).
+Proof. exact (conj gap_q2_zero (conj circle_float_diverges0 (conj circle_float_divergesv gap_masked))). Qed.
 (* its assumptions (Coq's primitive float / int63 operations, which Print Assumptions lists although
    they are kernel primitives, not axioms) are printed by the check through a separate case file and
    stored in the evidence as refuted_theorem_assumptions *)
